@@ -93,6 +93,7 @@ func VerifC18SevMetadata() {
 	verifAssert(verifTail(buf, orig, 12), "SevMetadataSection.Put writes exactly 12 bytes")
 	verifAssert(*SevMetadataSectionFromBytes(buf) == *s, "SevMetadataSectionFromBytes(Put(s)) == s")
 	verifAssert(s.Put(buf[:11]) != nil, "SevMetadataSection.Put refuses a short buffer")
+	verifAssert(s.Put(buf[:12]) == nil, "SevMetadataSection.Put accepts a buffer of exactly the ABI size")
 
 	m := &SevMetadata{Signature: verifNondetU32("sig"), Length: verifNondetU32("len"), Version: verifNondetU32("ver"), Sections: verifNondetU32("n")}
 	mb, mo := verifBuf(18)
@@ -101,6 +102,7 @@ func VerifC18SevMetadata() {
 	verifAssert(verifTail(mb, mo, 16), "SevMetadata.Put writes exactly 16 bytes")
 	verifAssert(*SevMetadataFromBytes(mb) == *m, "SevMetadataFromBytes(Put(m)) == m")
 	verifAssert(m.Put(mb[:15]) != nil, "SevMetadata.Put refuses a short buffer")
+	verifAssert(m.Put(mb[:16]) == nil, "SevMetadata.Put accepts a buffer of exactly the ABI size")
 
 	o := &MetadataOffset{Offset: verifNondetU32("off")}
 	o.GUIDEntry.Size = verifNondetU16("gsz")
@@ -112,6 +114,7 @@ func VerifC18SevMetadata() {
 	back, err := MetadataOffsetFromBytes(ob)
 	verifAssert(err == nil && *back == *o, "MetadataOffsetFromBytes(Put(o)) == o")
 	verifAssert(o.Put(ob[:21]) != nil, "MetadataOffset.Put refuses a short buffer")
+	verifAssert(o.Put(ob[:22]) == nil, "MetadataOffset.Put accepts a buffer of exactly the ABI size")
 	verifReach("end")
 }
 
@@ -136,6 +139,9 @@ func VerifC18ResetBlock() {
 	_, err = SevEsResetBlockFromBytes(buf[:23])
 	verifAssert(err != nil, "SevEsResetBlockFromBytes refuses 23 bytes")
 	verifAssert(PutSevEsResetBlock(buf[:21], s) != nil, "PutSevEsResetBlock refuses a short buffer")
+	verifAssert(PutSevEsResetBlock(buf[:22], s) == nil, "PutSevEsResetBlock accepts a buffer of exactly the ABI size")
+	short := &opb.SevEsResetBlock{Addr: addr, Size: size, Guid: guid[:15]}
+	verifAssert(PutSevEsResetBlock(buf, short) != nil, "PutSevEsResetBlock refuses a GUID that is not 16 bytes long")
 	verifReach("end")
 }
 
@@ -149,6 +155,8 @@ func VerifC18TDX() {
 	verifAssert(err == nil && *back == *d, "TDXMetadataDescriptorFromBytes(Put(d)) == d")
 	_, err = TDXMetadataDescriptorFromBytes(buf[:15])
 	verifAssert(err != nil && d.Put(buf[:15]) != nil, "TDX descriptor codec refuses 15 bytes")
+	back16, err16 := TDXMetadataDescriptorFromBytes(buf[:16])
+	verifAssert(err16 == nil && *back16 == *d && d.Put(buf[:16]) == nil, "TDX descriptor codec accepts exactly 16 bytes")
 
 	s := &TDXMetadataSection{DataOffset: verifNondetU32("do"), DataSize: verifNondetU32("ds"), MemoryBase: EFIPhysicalAddress(verifNondetU64("mb")),
 		MemorySize: verifNondetU64("ms"), SectionType: verifNondetU32("st"), Attributes: verifNondetU32("at")}
@@ -161,6 +169,8 @@ func VerifC18TDX() {
 	verifAssert(err == nil && *sback == *s, "TDXMetadataSectionFromBytes(Put(s)) == s")
 	_, err = TDXMetadataSectionFromBytes(sb[:31])
 	verifAssert(err != nil && s.Put(sb[:31]) != nil, "TDX section codec refuses 31 bytes")
+	sback32, err32 := TDXMetadataSectionFromBytes(sb[:32])
+	verifAssert(err32 == nil && *sback32 == *s && s.Put(sb[:32]) == nil, "TDX section codec accepts exactly 32 bytes")
 	verifReach("end")
 }
 
